@@ -12,6 +12,7 @@ Next == /\ Len(hist) < MaxOps
         /\ \/ \E w \in Workers, k \in 1..8, a \in Addrs :
                  Rec(w, k, a, BytesOf(k)) /\ hist' = Append(hist, [op |-> "rec", w |-> w, k |-> k, a |-> a, b |-> BytesOf(k)])
            \/ \E w \in Workers : Snapshot(w) /\ hist' = Append(hist, [op |-> "snapshot", w |-> w])
+           \/ \E w \in Workers : nev[w] > 0 /\ ClearAll(w) /\ hist' = Append(hist, [op |-> "clear", w |-> w])
            \/ (Merge /\ hist' = Append(hist, [op |-> "merge"]))
            \/ (rep # AllZero /\ Report /\ hist' = Append(hist, [op |-> "report"]))
 Spec == Init /\ [][Next]_vars
